@@ -249,3 +249,56 @@ func TestC07TableLifetime(t *testing.T) {
 	rep.Class("table-lifetime/one-method")
 	rep.Class("table-lifetime/two-methods")
 }
+
+// TestC07ContainerHandle: the object Interface(&v) returns, kept by the user, and the builder asked again for the
+// same variable are one configuration of one variable: methods mocked through either reach their replacements, a
+// method mocked through neither panics with the 'method not implements' message, and Reset makes the variable nil again.
+func TestC07ContainerHandle(t *testing.T) {
+	rep := vmon.NewReport("C07")
+	defer rep.Write()
+	for _, order := range []string{"handle first, then the usual chain, then the handle", "two handles up front", "chain first, then a handle"} {
+		for round := 0; round < 2; round++ {
+			var v keptSvc
+			b := mocker.Create()
+			c := map[string]interface{}{"order": order, "round": round}
+			var perr interface{}
+			func() {
+				defer func() { perr = recover() }()
+				switch order {
+				case "handle first, then the usual chain, then the handle":
+					h := b.Interface(&v)
+					b.Interface(&v).Method("Get").Apply(func(ctx *mocker.IContext, k string) int { return 41 })
+					h.Method("Put").Apply(func(ctx *mocker.IContext, k string, x int) int { return 42 })
+				case "two handles up front":
+					h1, h2 := b.Interface(&v), b.Interface(&v)
+					h1.Method("Get").Apply(func(ctx *mocker.IContext, k string) int { return 41 })
+					h2.Method("Put").Apply(func(ctx *mocker.IContext, k string, x int) int { return 42 })
+				default:
+					b.Interface(&v).Method("Get").Apply(func(ctx *mocker.IContext, k string) int { return 41 })
+					h := b.Interface(&v)
+					h.Method("Put").As(func(ctx *mocker.IContext, k string, x int) int { return 0 }).Return(42)
+				}
+			}()
+			rep.Eval(3)
+			rep.Class(fmt.Sprintf("kept-container/%s/round-%d", order, round))
+			if perr != nil {
+				rep.Violate("C07/valid-configuration-refused", fmt.Sprintf("%s: %v", order, perr), c)
+				func() { defer func() { recover() }(); b.Reset() }()
+				continue
+			}
+			got := [2]int{-1, -1}
+			func() {
+				defer func() { perr = recover() }()
+				got[0] = v.Get("k")
+				got[1] = v.Put("k", 1)
+			}()
+			if perr != nil || got != [2]int{41, 42} {
+				rep.Violate("C07/mocked-method-not-reached", fmt.Sprintf("%s: Get and Put mocked through the kept object and the builder's own lookup give %v, want [41 42] (panic: %v)", order, got, perr), c)
+			}
+			b.Reset()
+			if v != nil {
+				rep.Violate("C07/reset-did-not-restore", fmt.Sprintf("%s: after Reset the variable still holds %#v, want nil", order, *(*[2]uintptr)(unsafe.Pointer(&v))), c)
+			}
+		}
+	}
+}
